@@ -155,141 +155,264 @@ theorem built_verdict_is_conjunction_of_option_rules (o : Oracles) (a : Options)
     (testInfo o (buildFilters a) u r).verdict = (reference a).all (fun f => f.test o u r) := by
   rw [verdict_is_conjunction, build_sound]
 
-/-- What a guarded event is: a robots.txt fetch only for the item URL's own
-origin and only when that URL passed the filters; a request only for a URL
-that `consult_filters` accepted at that moment with the flag shown. -/
-def Guarded (o : Oracles) (fs : List Filter) (robots : Bool) (r : Rec) (u0 : Info) : Ev → Prop
-  | .robotsTxt u => u = u0 ∧ robots = true ∧ consultOk o fs u0 r false = true
-  | .request u red => consultOk o fs u r red = true
+/-- What a guarded event is: a robots.txt fetch only with a checker configured and only
+for the origin of a URL that `consult_filters` accepted at that moment (the item URL or
+a redirect target: "an origin being visited"); a request only for a URL that
+`consult_filters` accepted at that moment with the flag shown. -/
+def Guarded (o : Oracles) (c : Cfg) (r : Rec) : Ev → Prop
+  | .robotsTxt u => c.robots = true ∧ ∃ red, consultOk o c.fs u r red = true
+  | .request u red => consultOk o c.fs u r red = true
   | .skip => True
 
-theorem webLoop_guarded (o : Oracles) (c : Cfg) (r : Rec) (u0 : Info) (resps : List Resp) :
-    ∀ (next : Info) (redir : Bool), ∀ ev ∈ webLoop o c r next redir resps, Guarded o c.fs c.robots r u0 ev := by
+theorem mem_robotsGate {u : Info} {rob : RobotsOutcome} {rest : List Ev} {ev : Ev}
+    (h : ev ∈ robotsGate u rob rest) : ev = .robotsTxt u ∨ ev = .skip ∨ ev ∈ rest := by
+  unfold robotsGate at h
+  cases rob with
+  | cached a => cases a <;> simp at h <;> simp [h]
+  | fetched a =>
+    cases a
+    · simp at h; rcases h with h | h <;> simp [h]
+    · simp at h; rcases h with h | h <;> simp [h]
+  | error => simp at h; simp [h]
+
+theorem mem_webLoop_tail (o : Oracles) (c : Cfg) (r : Rec) (next : Info) (fl : Bool) (resps : List Resp) (e : Ev)
+    (he : e ∈ (Ev.request next fl ::
+        match resps with
+        | [] => []
+        | .redirect t rb :: rest => webLoop o c r t true rb rest
+        | .retrySame :: rest => webLoop o c r next false (.cached true) rest
+        | .finish :: _ => [])) :
+    e = .request next fl ∨
+    (∃ t rb rest, resps = .redirect t rb :: rest ∧ e ∈ webLoop o c r t true rb rest) ∨
+    (∃ rest, resps = .retrySame :: rest ∧ e ∈ webLoop o c r next false (.cached true) rest) := by
+  simp only [List.mem_cons] at he
+  rcases he with he | he
+  · exact Or.inl he
+  · cases resps with
+    | nil => simp at he
+    | cons x rest =>
+      cases x with
+      | redirect t rb => exact Or.inr (Or.inl ⟨t, rb, rest, rfl, he⟩)
+      | retrySame => exact Or.inr (Or.inr ⟨rest, rfl, he⟩)
+      | finish => simp at he
+
+/-- the events after the consultation of one loop iteration -/
+theorem mem_webLoop_cases (o : Oracles) (c : Cfg) (r : Rec) (next : Info) (redir : Bool)
+    (rob : RobotsOutcome) (resps : List Resp) (ev : Ev)
+    (hev : ev ∈ webLoop o c r next redir rob resps) :
+    (consultOk o c.fs next r (c.strongRedirects && redir) = false ∧ ev = .skip) ∨
+    (consultOk o c.fs next r (c.strongRedirects && redir) = true ∧
+      ((ev = .robotsTxt next ∧ redir = true ∧ c.robots = true) ∨ ev = .skip ∨
+       ev = .request next (c.strongRedirects && redir) ∨
+       (∃ t rb rest, resps = .redirect t rb :: rest ∧ ev ∈ webLoop o c r t true rb rest) ∨
+       (∃ rest, resps = .retrySame :: rest ∧ ev ∈ webLoop o c r next false (.cached true) rest))) := by
+  unfold webLoop at hev
+  by_cases hc : consultOk o c.fs next r (c.strongRedirects && redir) = true
+  · right
+    refine ⟨hc, ?_⟩
+    simp only [hc, Bool.not_true, Bool.false_eq_true, ↓reduceIte] at hev
+    have tail := fun {e : Ev} => mem_webLoop_tail o c r next (c.strongRedirects && redir) resps e
+    by_cases hg : (redir && c.robots) = true
+    · simp only [hg, ↓reduceIte] at hev
+      simp only [Bool.and_eq_true] at hg
+      rcases mem_robotsGate hev with h | h | h
+      · exact Or.inl ⟨h, hg.1, hg.2⟩
+      · exact Or.inr (Or.inl h)
+      · exact Or.inr (Or.inr (tail h))
+    · simp only [hg, Bool.false_eq_true, ↓reduceIte] at hev
+      exact Or.inr (Or.inr (tail hev))
+  · left
+    simp only [Bool.not_eq_true] at hc
+    simp [hc] at hev
+    exact ⟨hc, hev⟩
+
+theorem webLoop_guarded (o : Oracles) (c : Cfg) (r : Rec) (resps : List Resp) :
+    ∀ (next : Info) (redir : Bool) (rob : RobotsOutcome),
+      ∀ ev ∈ webLoop o c r next redir rob resps, Guarded o c r ev := by
   induction resps with
   | nil =>
-    intro next redir ev hev
-    unfold webLoop at hev
-    by_cases hc : consultOk o c.fs next r (c.strongRedirects && redir) = true
-    · simp [hc] at hev; subst hev; exact hc
-    · simp [hc] at hev; subst hev; trivial
-  | cons x rest ih =>
-    intro next redir ev hev
-    unfold webLoop at hev
-    by_cases hc : consultOk o c.fs next r (c.strongRedirects && redir) = true
-    · simp only [hc, Bool.not_true, Bool.false_eq_true, ↓reduceIte, List.mem_cons] at hev
-      rcases hev with rfl | hev
+    intro next redir rob ev hev
+    rcases mem_webLoop_cases o c r next redir rob [] ev hev with ⟨_, rfl⟩ | ⟨hc, h⟩
+    · trivial
+    · rcases h with ⟨rfl, _, hr⟩ | rfl | rfl | ⟨_, _, _, h, _⟩ | ⟨_, h, _⟩
+      · exact ⟨hr, _, hc⟩
+      · trivial
       · exact hc
-      · cases x with
-        | redirect t => exact ih t true ev hev
-        | retrySame => exact ih next false ev hev
-        | finish => simp at hev
-    · simp [hc] at hev; subst hev; trivial
+      · simp at h
+      · simp at h
+  | cons x rest ih =>
+    intro next redir rob ev hev
+    rcases mem_webLoop_cases o c r next redir rob (x :: rest) ev hev with ⟨_, rfl⟩ | ⟨hc, h⟩
+    · trivial
+    · rcases h with ⟨rfl, _, hr⟩ | rfl | rfl | ⟨t, rb, rest', h, hm⟩ | ⟨rest', h, hm⟩
+      · exact ⟨hr, _, hc⟩
+      · trivial
+      · exact hc
+      · simp only [List.cons.injEq] at h
+        obtain ⟨_, rfl⟩ := h
+        exact ih t true rb ev hm
+      · simp only [List.cons.injEq] at h
+        obtain ⟨_, rfl⟩ := h
+        exact ih next false _ ev hm
 
-/-- **every request of a web session is guarded** — for every filter list,
-record, start URL, robots outcome and every sequence of server answers
-(redirect targets chosen by the adversary): each event the session emits is
-a robots.txt fetch for the origin of the (accepted) item URL, or a request for
-a URL that `consult_filters` accepted at that moment. -/
-theorem web_requests_guarded (o : Oracles) (c : Cfg) (r : Rec) (u0 : Info) (rob : RobotsOutcome)
-    (resps : List Resp) :
-    ∀ ev ∈ webProcess o c r u0 rob resps, Guarded o c.fs c.robots r u0 ev := by
-  intro ev hev
+/-- membership in a whole session trace: the initial gate, or the loop -/
+theorem mem_webProcess_cases (o : Oracles) (c : Cfg) (r : Rec) (u0 : Info) (rob : RobotsOutcome)
+    (resps : List Resp) (ev : Ev) (hev : ev ∈ webProcess o c r u0 rob resps) :
+    ev = .skip ∨
+    (ev = .robotsTxt u0 ∧ c.robots = true ∧ consultOk o c.fs u0 r false = true) ∨
+    ev ∈ webLoop o c r u0 false (.cached true) resps := by
   unfold webProcess at hev
-  have loop := webLoop_guarded o c r u0 resps u0 false
   by_cases hv : consultOk o c.fs u0 r false = true <;> by_cases hr : c.robots = true
   · simp only [hv, hr, Bool.and_self, ↓reduceIte] at hev
-    cases rob with
-    | cached a =>
-      cases a
-      · simp at hev; subst hev; trivial
-      · exact loop ev hev
-    | fetched a =>
-      cases a
-      · simp at hev
-        rcases hev with rfl | rfl
-        · exact ⟨rfl, hr, hv⟩
-        · trivial
-      · simp only [List.mem_cons] at hev
-        rcases hev with rfl | hev
-        · exact ⟨rfl, hr, hv⟩
-        · exact loop ev hev
-    | error =>
-      simp at hev; subst hev; exact ⟨rfl, hr, hv⟩
+    rcases mem_robotsGate hev with h | h | h
+    · exact Or.inr (Or.inl ⟨h, hr, hv⟩)
+    · exact Or.inl h
+    · exact Or.inr (Or.inr h)
   · simp [hv, hr] at hev
-    exact loop ev (by simpa [hr] using hev)
-  · simp [hv] at hev; subst hev; trivial
-  · simp [hv] at hev; subst hev; trivial
+    exact Or.inr (Or.inr hev)
+  · simp [hv] at hev; exact Or.inl hev
+  · simp [hv] at hev; exact Or.inl hev
+
+/-- **every request of a web session is guarded** — for every filter list,
+record, start URL, robots outcomes and every sequence of server answers
+(redirect targets chosen by the adversary): each event the session emits is
+a robots.txt fetch for the origin of a URL that `consult_filters` accepted at
+that moment, or a request for a URL that `consult_filters` accepted at that moment. -/
+theorem web_requests_guarded (o : Oracles) (c : Cfg) (r : Rec) (u0 : Info) (rob : RobotsOutcome)
+    (resps : List Resp) :
+    ∀ ev ∈ webProcess o c r u0 rob resps, Guarded o c r ev := by
+  intro ev hev
+  rcases mem_webProcess_cases o c r u0 rob resps ev hev with rfl | ⟨rfl, hr, hv⟩ | h
+  · trivial
+  · exact ⟨hr, false, hv⟩
+  · exact webLoop_guarded o c r resps u0 false _ ev h
 
 /-- The waiver flag is only ever raised for the target of a redirect the server
 sent in this session, and only with strong redirects enabled; the item URL
 itself is always consulted without it. -/
 theorem webLoop_flag_only_for_redirect_targets (o : Oracles) (c : Cfg) (r : Rec) (resps : List Resp) :
-    ∀ (next : Info) (redir : Bool) (u : Info),
-      Ev.request u true ∈ webLoop o c r next redir resps →
-      c.strongRedirects = true ∧ ((redir = true ∧ u = next) ∨ Resp.redirect u ∈ resps) := by
+    ∀ (next : Info) (redir : Bool) (rob : RobotsOutcome) (u : Info),
+      Ev.request u true ∈ webLoop o c r next redir rob resps →
+      c.strongRedirects = true ∧ ((redir = true ∧ u = next) ∨ ∃ rb, Resp.redirect u rb ∈ resps) := by
   induction resps with
   | nil =>
-    intro next redir u hev
-    unfold webLoop at hev
-    by_cases hc : consultOk o c.fs next r (c.strongRedirects && redir) = true
-    · simp [hc] at hev
-      obtain ⟨rfl, hflag⟩ := hev
-      exact ⟨hflag.1, Or.inl ⟨hflag.2, rfl⟩⟩
-    · simp [hc] at hev
+    intro next redir rob u hev
+    rcases mem_webLoop_cases o c r next redir rob [] _ hev with ⟨_, h⟩ | ⟨_, h⟩
+    · simp at h
+    · rcases h with ⟨h, _⟩ | h | h | ⟨_, _, _, h, _⟩ | ⟨_, h, _⟩
+      · simp at h
+      · simp at h
+      · simp only [Ev.request.injEq] at h
+        obtain ⟨rfl, hflag⟩ := h
+        have := hflag.symm
+        simp only [Bool.and_eq_true] at this
+        exact ⟨this.1, Or.inl ⟨this.2, rfl⟩⟩
+      · simp at h
+      · simp at h
   | cons x rest ih =>
-    intro next redir u hev
-    unfold webLoop at hev
-    by_cases hc : consultOk o c.fs next r (c.strongRedirects && redir) = true
-    · simp only [hc, Bool.not_true, Bool.false_eq_true, ↓reduceIte, List.mem_cons] at hev
-      rcases hev with hhead | hev
-      · simp at hhead
-        obtain ⟨rfl, hflag⟩ := hhead
-        exact ⟨hflag.1, Or.inl ⟨hflag.2, rfl⟩⟩
-      · cases x with
-        | redirect t =>
-          obtain ⟨hs, h⟩ := ih t true u hev
-          refine ⟨hs, Or.inr ?_⟩
-          rcases h with ⟨_, rfl⟩ | h
-          · simp
-          · simp [h]
-        | retrySame =>
-          obtain ⟨hs, h⟩ := ih next false u hev
-          refine ⟨hs, Or.inr ?_⟩
-          rcases h with ⟨hf, _⟩ | h
-          · simp at hf
-          · simp [h]
-        | finish => simp at hev
-    · simp [hc] at hev
+    intro next redir rob u hev
+    rcases mem_webLoop_cases o c r next redir rob (x :: rest) _ hev with ⟨_, h⟩ | ⟨_, h⟩
+    · simp at h
+    · rcases h with ⟨h, _⟩ | h | h | ⟨t, rb, rest', h, hm⟩ | ⟨rest', h, hm⟩
+      · simp at h
+      · simp at h
+      · simp only [Ev.request.injEq] at h
+        obtain ⟨rfl, hflag⟩ := h
+        have := hflag.symm
+        simp only [Bool.and_eq_true] at this
+        exact ⟨this.1, Or.inl ⟨this.2, rfl⟩⟩
+      · simp only [List.cons.injEq] at h
+        obtain ⟨rfl, rfl⟩ := h
+        obtain ⟨hs, h⟩ := ih t true rb u hm
+        refine ⟨hs, Or.inr ?_⟩
+        rcases h with ⟨_, rfl⟩ | ⟨rb', h⟩
+        · exact ⟨rb, by simp⟩
+        · exact ⟨rb', by simp [h]⟩
+      · simp only [List.cons.injEq] at h
+        obtain ⟨rfl, rfl⟩ := h
+        obtain ⟨hs, h⟩ := ih next false _ u hm
+        refine ⟨hs, Or.inr ?_⟩
+        rcases h with ⟨hf, _⟩ | ⟨rb', h⟩
+        · simp at hf
+        · exact ⟨rb', by simp [h]⟩
+
+/-- **robots.txt is fetched only for an origin being visited**: inside the loop only
+for the target of a redirect the server sent (and that target passed the consultation,
+`web_requests_guarded`); for the whole session additionally for the item URL. -/
+theorem webLoop_robots_only_for_redirect_targets (o : Oracles) (c : Cfg) (r : Rec) (resps : List Resp) :
+    ∀ (next : Info) (redir : Bool) (rob : RobotsOutcome) (u : Info),
+      Ev.robotsTxt u ∈ webLoop o c r next redir rob resps →
+      (redir = true ∧ u = next) ∨ ∃ rb, Resp.redirect u rb ∈ resps := by
+  induction resps with
+  | nil =>
+    intro next redir rob u hev
+    rcases mem_webLoop_cases o c r next redir rob [] _ hev with ⟨_, h⟩ | ⟨_, h⟩
+    · simp at h
+    · rcases h with ⟨h, hr, _⟩ | h | h | ⟨_, _, _, h, _⟩ | ⟨_, h, _⟩
+      · simp only [Ev.robotsTxt.injEq] at h
+        exact Or.inl ⟨hr, h⟩
+      · simp at h
+      · simp at h
+      · simp at h
+      · simp at h
+  | cons x rest ih =>
+    intro next redir rob u hev
+    rcases mem_webLoop_cases o c r next redir rob (x :: rest) _ hev with ⟨_, h⟩ | ⟨_, h⟩
+    · simp at h
+    · rcases h with ⟨h, hr, _⟩ | h | h | ⟨t, rb, rest', h, hm⟩ | ⟨rest', h, hm⟩
+      · simp only [Ev.robotsTxt.injEq] at h
+        exact Or.inl ⟨hr, h⟩
+      · simp at h
+      · simp at h
+      · simp only [List.cons.injEq] at h
+        obtain ⟨rfl, rfl⟩ := h
+        right
+        rcases ih t true rb u hm with ⟨_, rfl⟩ | ⟨rb', h⟩
+        · exact ⟨rb, by simp⟩
+        · exact ⟨rb', by simp [h]⟩
+      · simp only [List.cons.injEq] at h
+        obtain ⟨rfl, rfl⟩ := h
+        right
+        rcases ih next false _ u hm with ⟨hf, _⟩ | ⟨rb', h⟩
+        · simp at hf
+        · exact ⟨rb', by simp [h]⟩
+
+theorem web_robots_only_for_visited_origins (o : Oracles) (c : Cfg) (r : Rec) (u0 : Info)
+    (rob : RobotsOutcome) (resps : List Resp) (u : Info)
+    (h : Ev.robotsTxt u ∈ webProcess o c r u0 rob resps) :
+    c.robots = true ∧ (∃ red, consultOk o c.fs u r red = true) ∧
+      (u = u0 ∨ ∃ rb, Resp.redirect u rb ∈ resps) := by
+  have hg := web_requests_guarded o c r u0 rob resps _ h
+  refine ⟨hg.1, hg.2, ?_⟩
+  rcases mem_webProcess_cases o c r u0 rob resps _ h with h | ⟨h, _, _⟩ | h
+  · simp at h
+  · simp only [Ev.robotsTxt.injEq] at h; exact Or.inl h
+  · rcases webLoop_robots_only_for_redirect_targets o c r resps u0 false _ u h with ⟨hf, _⟩ | h
+    · simp at hf
+    · exact Or.inr h
 
 /-- **C02 for the web session, in the property's words.**  Every URL a web
 session requests passes every configured filter — except that the target of a
 redirect sent by the server may, with strong redirects enabled, fail exactly
 one filter, which is then a span-hosts filter.  (robots.txt fetches are the
-other documented exception, see `web_requests_guarded`.) -/
+other documented exception, see `web_robots_only_for_visited_origins`.) -/
 theorem web_requests_in_scope (o : Oracles) (c : Cfg) (r : Rec) (u0 : Info) (rob : RobotsOutcome)
     (resps : List Resp) (u : Info) (red : Bool)
     (h : Ev.request u red ∈ webProcess o c r u0 rob resps) :
     (c.fs.all (fun f => f.test o u r) = true) ∨
-    (red = true ∧ c.strongRedirects = true ∧ Resp.redirect u ∈ resps ∧
+    (red = true ∧ c.strongRedirects = true ∧ (∃ rb, Resp.redirect u rb ∈ resps) ∧
       ∃ f, (testInfo o c.fs u r).failed = [f] ∧ f.isSpanHosts = true) := by
   have hg : consultOk o c.fs u r red = true := web_requests_guarded o c r u0 rob resps _ h
   rcases waiver_only_span_hosts o c.fs u r red hg with hv | ⟨hr, hf⟩
   · left; rw [← verdict_is_conjunction]; exact hv
   · right
     subst hr
-    -- the flagged request sits inside the loop part of the trace
-    have hloop : Ev.request u true ∈ webLoop o c r u0 false resps := by
-      unfold webProcess at h
-      by_cases hv : consultOk o c.fs u0 r false = true <;> by_cases hrb : c.robots = true
-      · simp only [hv, hrb, Bool.and_self, ↓reduceIte] at h
-        cases rob with
-        | cached a => cases a <;> simp at h <;> exact h
-        | fetched a => cases a <;> simp at h <;> exact h
-        | error => simp at h
-      · simpa [hv, hrb] using h
-      · simp [hv] at h
-      · simp [hv] at h
-    obtain ⟨hs, ht⟩ := webLoop_flag_only_for_redirect_targets o c r resps u0 false u hloop
+    have hloop : Ev.request u true ∈ webLoop o c r u0 false (.cached true) resps := by
+      rcases mem_webProcess_cases o c r u0 rob resps _ h with h | ⟨h, _⟩ | h
+      · simp at h
+      · simp at h
+      · exact h
+    obtain ⟨hs, ht⟩ := webLoop_flag_only_for_redirect_targets o c r resps u0 false _ u hloop
     rcases ht with ⟨hfalse, _⟩ | ht
     · simp at hfalse
     · exact ⟨rfl, hs, ht, hf⟩
@@ -408,9 +531,17 @@ example : (consult o0 fs0 uB r0 false).verdict = false := by decide
 -- a second failing rule (retry limit reached): no waiver
 example : (consult o0 fs1 uB { r0 with tryCount := 1 } true).verdict = false := by decide
 -- web sessions: strong redirects on / off
-example : webProcess o0 ⟨fs0, true, false⟩ r0 uA (.cached true) [.redirect uB, .finish]
+example : webProcess o0 ⟨fs0, true, false⟩ r0 uA (.cached true) [.redirect uB (.fetched true), .finish]
     = [.request uA false, .request uB true] := by decide
-example : webProcess o0 ⟨fs0, false, false⟩ r0 uA (.cached true) [.redirect uB, .finish]
+example : webProcess o0 ⟨fs0, false, false⟩ r0 uA (.cached true) [.redirect uB (.fetched true), .finish]
+    = [.request uA false, .skip] := by decide
+-- robots.txt of the redirect target's origin is consulted after the filters accepted the target
+example : webProcess o0 ⟨fs0, true, true⟩ r0 uA (.fetched true) [.redirect uB (.fetched true), .finish]
+    = [.robotsTxt uA, .request uA false, .robotsTxt uB, .request uB true] := by decide
+example : webProcess o0 ⟨fs0, true, true⟩ r0 uA (.cached true) [.redirect uB (.fetched false), .finish]
+    = [.request uA false, .robotsTxt uB, .skip] := by decide
+-- ... and never for a target the filters refused
+example : webProcess o0 ⟨fs0, false, true⟩ r0 uA (.cached true) [.redirect uB (.fetched true), .finish]
     = [.request uA false, .skip] := by decide
 example : webProcess o0 ⟨fs0, true, true⟩ r0 uA (.fetched true) [.finish]
     = [.robotsTxt uA, .request uA false] := by decide
